@@ -298,6 +298,7 @@ PROPS["C11"] = dict(
           "distinct by the step list / spec"),
     assumptions=["pointer-derived names of anonymous types do not appear in the compared results of accepted inputs (they do in the message of error 1302 for a missing anonymous type, which no accepted input produces)"],
     jobs=[job("histories", "^TestHistories$", (4, 16), (2000, 30000), (900, 3000)),
+          job("fresh-objects", "^TestFreshObjectsAgree$", (1, 4), (24, 400), (900, 3000)),
           job("map-orders", "^TestMapOrders$", (4, 16), (800, 30000), (900, 3000), pkg="c11m")],
 )
 PROPS["C12"] = dict(
@@ -324,7 +325,7 @@ _R5 = {
     "C07": "; regex classes without printable ASCII and zero-width assertions, blank documents, type shortcuts next to an or of kind names, layered graphs of or types (8-36 layers, 60 s budget); the error value itself (not a wrapped one) must be the library error and its Message() non-empty",
     "C08": "; or rule sets with an empty exclusive interval, a rule foreign to the declared kind, bounds of 2^64; minLength / minItems / precision of 2^64; second check: AddType after the first use (check, ast, example, validate, len) is refused or takes effect",
     "C09": "; layered acyclic graphs of 30-44 levels x 2 types whose number of paths is 2^levels (alternatives, or rules, key shortcuts, optional / required properties, array items; flat or with every type knowing every type): Check, Validate and Example return; types created with KeysAreOptionalByDefault, or members written as rule sets with a second rule, key-type aliases naming a missing type",
-    "C11": "; error messages compared; regex example bytes; one Document object validated repeatedly; schemas with regex types; types wired to each other and types known only through other types",
+    "C11": "; schemas with several defective rule sets in one or rule, built afresh 2000 times by 8 goroutines (the defect reported must be the same whatever addresses the objects get); error messages compared; regex example bytes; one Document object validated repeatedly; schemas with regex types; types wired to each other and types known only through other types",
     "C12": "; specs with regex types and with types wired to each other; private schemas add the type objects of the shared one; operations on the shared type objects themselves (Check of a type, Example of a regex type)",
     "C13": "; 22 rewrite kinds now (empty # comments, blank in empty containers, property after array, blank or tab between a bare rule name and its colon, ### block ### inside inline rule objects, notes on lines of their own); document re-spelling also over type graphs",
     "C14": "; negatives: blank-only JSON texts, type shortcuts cut off at the end of input; foreign text of several lines containing / and #; empty comments after an enum",
